@@ -338,6 +338,9 @@ enum ReadState {
         size: usize,
         frame_size: usize,
     },
+    /// A malformed frame or a decryption failure was reported. The stream cannot be
+    /// resynchronized, so every later read reports the error again.
+    Failed,
 }
 
 enum WriteState {
@@ -492,6 +495,7 @@ impl<S: AsyncRead + AsyncWrite + Unpin> AsyncRead for NoiseSocket<S> {
 
         loop {
             match this.read_state {
+                ReadState::Failed => return Poll::Ready(Err(io::ErrorKind::InvalidData.into())),
                 ReadState::ReadData { max_read } => {
                     let nread = match Pin::new(&mut this.io)
                         .poll_read(cx, &mut this.read_buffer[this.nread..max_read])
@@ -605,6 +609,7 @@ impl<S: AsyncRead + AsyncWrite + Unpin> AsyncRead for NoiseSocket<S> {
                             max_size = ?NOISE_EXTRA_ENCRYPT_SPACE,
                             "invalid frame size",
                         );
+                        this.read_state = ReadState::Failed;
                         return Poll::Ready(Err(io::ErrorKind::InvalidData.into()));
                     }
 
@@ -664,6 +669,7 @@ impl<S: AsyncRead + AsyncWrite + Unpin> AsyncRead for NoiseSocket<S> {
                                         "failed to decrypt message"
                                     );
 
+                                    this.read_state = ReadState::Failed;
                                     return Poll::Ready(Err(io::ErrorKind::InvalidData.into()));
                                 }
                                 Ok(nread) => {
@@ -691,6 +697,7 @@ impl<S: AsyncRead + AsyncWrite + Unpin> AsyncRead for NoiseSocket<S> {
                                             "failed to decrypt message for smaller buffer"
                                         );
 
+                                        this.read_state = ReadState::Failed;
                                         return Poll::Ready(Err(io::ErrorKind::InvalidData.into()));
                                     }
                                     Ok(nread) => {
